@@ -12,7 +12,14 @@ use crate::prng::Rng;
 use crate::simfs::{Fault, FaultKind, FsSpec, Sel};
 use crate::w3::{self, Form, Mode};
 
-const CHUNKS: u64 = 8;
+/// fault universes of one corpus entry are split into this many units (small units keep the
+/// hang watchdog meaningful and the load balanced)
+fn chunks(tier: Tier) -> u64 {
+    match tier {
+        Tier::Quick => 8,
+        Tier::Thorough => 64,
+    }
+}
 const SNIPPET_BATCH: u64 = 32;
 const W3_BATCH: u64 = 25;
 /// Constant of the check (not VERIF_SEED): fixes the universe of fault combinations
@@ -38,7 +45,7 @@ pub fn sections(ctx: &Ctx) -> Vec<(&'static str, u64)> {
     } * ctx.scale;
     let mut v = vec![("baseline-w1", w1), ("baseline-w5", w5)];
     for s in FAULT_SECTIONS {
-        v.push((s, entries * CHUNKS));
+        v.push((s, entries * chunks(ctx.tier)));
     }
     v.push(("w3-total", w3));
     v
@@ -397,8 +404,9 @@ pub fn cases(ctx: &Ctx, section: &str, i: u64) -> Vec<Case> {
             out
         }
         s if FAULT_SECTIONS.contains(&s) => {
-            let entry_index = (i / CHUNKS) as usize;
-            let chunk = i % CHUNKS;
+            let nchunks = chunks(ctx.tier);
+            let entry_index = (i / nchunks) as usize;
+            let chunk = i % nchunks;
             let e = &ctx.corpus.entries[entry_index];
             let fs = &ctx.corpus.trees[e.tree];
             let loaded = pre_run(fs, &entry_task(ctx, entry_index, 0));
@@ -408,7 +416,7 @@ pub fn cases(ctx: &Ctx, section: &str, i: u64) -> Vec<Case> {
             let mut out = Vec::new();
             for (n, (label, faults)) in uni.into_iter().enumerate() {
                 let n = n as u64;
-                if n % CHUNKS != chunk || (n / CHUNKS) % stride != residue {
+                if n % nchunks != chunk || (n / nchunks) % stride != residue {
                     continue;
                 }
                 let mut t = entry_task(ctx, entry_index, n);
